@@ -132,6 +132,15 @@ func runSer1(c *core.Ctx) {
 
 // before: on every execution on which both run, a runs before the first b
 // that follows it: b is reachable from a and a is not reachable from b.
+// isU4xAppendf: call is fmt.Appendf(buf, `\u%04x`, x)
+func isU4xAppendf(call *ssa.Call) bool {
+	if an.CalleeName(&call.Call) != "fmt.Appendf" || len(call.Call.Args) != 3 {
+		return false
+	}
+	f, ok := an.ConstStr(call.Call.Args[1])
+	return ok && f == `\u%04x`
+}
+
 func before(a, b ssa.Instruction) bool {
 	if a.Block() == b.Block() {
 		return an.InstrDominates(a, b) && a != b
@@ -231,6 +240,20 @@ func runSer2(c *core.Ctx) {
 	an.Instrs(esc, func(in ssa.Instruction) {
 		call, ok := in.(*ssa.Call)
 		if !ok {
+			return
+		}
+		// the \u00xx branch written with the standard library: fmt.Appendf(dst, `\u%04x`, c) — four
+		// lower-case hex digits, zero-padded, of the byte itself
+		if isU4xAppendf(call) {
+			if elems, okE := an.VariadicElems(call.Call.Args[2]); okE && len(elems) == 1 {
+				v := elems[0]
+				if mi, isMI := v.(*ssa.MakeInterface); isMI {
+					v = mi.X
+				}
+				if v == subj {
+					ctlBlock, ctlCall, ctlOK = call.Block(), call, true
+				}
+			}
 			return
 		}
 		b, ok := call.Call.Value.(*ssa.Builtin)
